@@ -184,6 +184,8 @@ def run(ctx):
                 s_ok += 1
     finally:
         fs.cleanup()
+    if not ctx.replay:
+        ctx.sample({"law query": laws[-1][1] if laws else None, "cooked entry (library = model)": got[:2] if got else None})
     ctx.cov["evaluations"] = dies
     ctx.cov["distinct_nontrivial"] = ok
     ctx.cov["forests"] = n
